@@ -39,9 +39,12 @@ def run_mutant(m, tier, run_tests, seed):
             open(path, "w").write(src.replace(m["old"], m["new"], 1))
         tests_ok = None
         if run_tests:
-            t = subprocess.run([PY, "-m", "pytest", "-q", "-x", "-p", "no:cacheprovider", "tests"],
-                               cwd=repo, capture_output=True, text=True)
-            tests_ok = t.returncode == 0
+            try:
+                t = subprocess.run([PY, "-m", "pytest", "-q", "-x", "-p", "no:cacheprovider", "tests"],
+                                   cwd=repo, capture_output=True, text=True, timeout=400)
+                tests_ok = t.returncode == 0
+            except subprocess.TimeoutExpired:
+                tests_ok = "hang"
         res = {}
         for prop in m["props"]:
             env = dict(os.environ, VERIF_REPO=repo, VERIF_SEED=str(seed))
